@@ -7,8 +7,8 @@
    negative controls: TLC must find a violating history for each.
 2. TLC exports one history per distinct final model state; tools/checks/c15.py turns each into a
    script for the real library: abstract call classes are mapped to real sampling functions,
-   a raw probe closes every seeding, and every re-seeding gets a canonical twin (a newly created
-   thread that makes only the calls of that seeding).  Seeded random long histories over all 38
+   a raw probe closes every seeding, and every seeding gets a canonical twin (a newly created
+   thread that makes only the calls of that seeding while no other thread draws).  Seeded random long histories over all 38
    sampling entry points, up to 4 dirty threads, free-running concurrency, special seeds
    (0, 1, 2^63, 2^64-1, the library's dummy seed) are added.
 3. harness/rng15_replay runs the scripts on real pthreads and records bit patterns;
